@@ -123,3 +123,74 @@ func RunJobConc(behs [][]Step, tr *Trace, env Env, sum *Summary) {
 func init() {
 	Modules["jobconc"] = func(behs [][]Step, tr *Trace, env Env, sum *Summary) { RunJobConc(behs, tr, env, sum) }
 }
+
+// ---- Burst (C01, concurrency): many requests for one session at the same moment ----
+
+// RunBurst fires rounds of simultaneous requests (check-ins against a queue with 0 or 1 task, callbacks) for one
+// agent and probes after every round that each request was answered and that no mutex of the session stays locked.
+func RunBurst(behs [][]Step, tr *Trace, env Env, sum *Summary) {
+	for bi, beh := range behs {
+		cell := beh[0]
+		width, rounds := cell.Int("width"), cell.Int("rounds")
+		w, err := world.New(env.Scratch, world.Options{})
+		must(err)
+		id := uint32(0x5200_0000) + uint32(env.Shard)<<8 + uint32(bi)
+		k := world.KeysFor(env.Seed, bi+7, false)
+		if r := w.Register(id, k, refdemon.DefaultMeta("bu")); r.Status != 200 {
+			panic("harness-error: registration refused")
+		}
+		a := w.Agent(id)
+		ok, answered := true, true
+		what := ""
+		for r := 0; r < rounds && ok; r++ {
+			if cell.Str("queue") == "one" || (cell.Str("queue") == "alternate" && r%2 == 0) {
+				a.AddJobToQueue(agent.Job{Command: agent.COMMAND_SOCKET, RequestID: uint32(r), Data: []any{agent.SOCKET_COMMAND_WRITE, 1, r, []byte{1}}})
+			}
+			res := w.Burst(refdemon.CheckIn(id, k), width, 10*time.Second)
+			for g := range res {
+				if res[g].Panic != "" || res[g].Timeout || res[g].Status != 200 {
+					answered = false
+					ok = false
+					what = fmt.Sprintf("round %d request %d: status %d timeout %v %s", r, g, res[g].Status, res[g].Timeout, firstLines(res[g].Panic, 8))
+				}
+			}
+			for name, m := range map[string]interface{ TryLock() bool }{"JobQueueMtx": &a.JobQueueMtx, "PortFwdsMtx": &a.PortFwdsMtx, "SocksCliMtx": &a.SocksCliMtx, "SocksSvrMtx": &a.SocksSvrMtx} {
+				free := false
+				for t := 0; t < 50 && !free; t++ { // every request has returned: nothing may still hold it
+					if m.TryLock() {
+						free = true
+						switch name {
+						case "JobQueueMtx":
+							a.JobQueueMtx.Unlock()
+						case "PortFwdsMtx":
+							a.PortFwdsMtx.Unlock()
+						case "SocksCliMtx":
+							a.SocksCliMtx.Unlock()
+						default:
+							a.SocksSvrMtx.Unlock()
+						}
+					} else {
+						time.Sleep(2 * time.Millisecond)
+					}
+				}
+				if !free {
+					ok = false
+					what = fmt.Sprintf("round %d: %s still locked after all %d requests returned", r, name, width)
+					sum.Incidents = append(sum.Incidents, Incident{Behaviour: bi, Step: r, Kind: "lock-held", Site: fmt.Sprintf("%d simultaneous check-ins, queue=%s", width, cell.Str("queue")), Detail: name})
+				}
+			}
+		}
+		if !answered {
+			sum.Incidents = append(sum.Incidents, Incident{Behaviour: bi, Kind: "hang", Site: fmt.Sprintf("%d simultaneous check-ins, queue=%s", width, cell.Str("queue")), Detail: what})
+		}
+		tr.Emit(map[string]any{"ev": "Reset"})
+		tr.Emit(map[string]any{"ev": "Step", "o": map[string]any{"op": "Burst", "width": width, "queue": cell.Str("queue")}, "obs": map[string]any{"status": 200, "ok": ok}, "dls": []any{}, "pfs": []any{}})
+		sum.Counters["burst_rounds"] += rounds
+		sum.Behaviours++
+		w.Close()
+	}
+}
+
+func init() {
+	Modules["burst"] = func(behs [][]Step, tr *Trace, env Env, sum *Summary) { RunBurst(behs, tr, env, sum) }
+}
